@@ -201,6 +201,11 @@ class Crate:
         self.statics = {norm_path(a["def"]): a for a in self.raw["statics"]}
         self.consts = {norm_path(a["def"]): a for a in self.raw["consts"]}
         self.impls = self.raw["impls"]
+        self.derived_fns = set()
+        for im in self.impls:
+            if im.get("derived"):
+                for it in im.get("items", []):
+                    self.derived_fns.add(norm_path(it))
         self._norm(self.raw["bodies"])
 
     def _norm(self, n):
